@@ -59,3 +59,9 @@ def match(prop, facet, case, kind, msg, data):
 def describe(key):
     _load()
     return _desc.get(key, "")
+
+
+def active_keys(prop):
+    """Keys of the findings listed for this property in KNOWN_FINDINGS.txt."""
+    _load()
+    return list(_active.get(prop, ()))
